@@ -69,7 +69,9 @@ void parallel_for_staticImpl(
     ssize_t maxThreads,
     bool wait,
     bool reuseExistingState,
-    uint32_t granularity = 1) {
+    uint32_t granularity = 1,
+    IntegerT tailEnd = IntegerT{0},
+    bool hasTail = false) {
   using size_type = typename ChunkedRange<IntegerT>::size_type;
 
   size_type numThreads = std::min<size_type>(taskSet.numPoolThreads() + 1, maxThreads);
@@ -132,9 +134,15 @@ void parallel_for_staticImpl(
       auto stateIt = states.begin();
       std::advance(stateIt, static_cast<ptrdiff_t>(chunkIdx));
 
-      return [it = stateIt, start, end, f]() {
+      // wait == false: nobody is left to run the sub-granularity tail after the parallel portion,
+      // so the task of the last chunk runs it, serially after its own chunk and on its own state.
+      bool runTailHere = hasTail && !wait && chunkIdx + 1 == numThreads;
+      return [it = stateIt, start, end, f, runTailHere, tailEnd]() {
         auto recurseInfo = detail::PerPoolPerThreadInfo::parForRecurse();
         f(*it, start, end);
+        if (runTailHere) {
+          f(*it, end, tailEnd);
+        }
       };
     });
   }
